@@ -359,6 +359,8 @@ func vInfixShape(op pAst.InfixOperator) int {
     ensures @same-module self.currModule == old(self.currModule) && samemap(self.modules, old(self.modules))
     assume @trigger-arguments-are-another-function after self.currFn = currFnOld :: self.aligned() && self.CurrFn() == entry(self.CurrFn())
     assert @body-starts-outside-try before self.compileBlock(node.Body, false) :: self.tryDepth == 0
+    loop 3 progress @parameter-popped-once param.IsSingletonExtractor || (self.codeLen() == iterstart(self.codeLen()) + 1 && self.emitted(0).Opcode() == Opcode_SetVarImm)
+    loop 4 progress @singleton-loaded-once self.codeLen() == iterstart(self.codeLen()) + 2 && self.emitted(1).Opcode() == Opcode_GetGlobImm && self.emitted(0).Opcode() == Opcode_SetVarImm
     loopinvariant self.scopesWF() && self.aligned() && len(self.varScopes) == entry(len(self.varScopes)) && len(self.loops) == entry(len(self.loops)) && self.tryDepth == entry(self.tryDepth) && self.currFn == entry(self.currFn) && self.currModule == entry(self.currModule) && samemap(self.modules, entry(self.modules)) && self.CurrFn() == entry(self.CurrFn())
     loopinvariant forall i in 0..len(self.varScopes) :: samemap(self.varScopes[i], entry(self.varScopes[i]))
     loopinvariant forall m map[string]string in allocated :: !samemap(m, self.varScopes[len(self.varScopes)-1]) ==> samecontent(m, entry(m))
